@@ -388,7 +388,13 @@ func CheckC16(env *core.Env, rep *core.Report) *core.Result {
 				var o [3]string
 				for j, args := range [][]string{{"list"}, {"show", "main"}, {"--raw", "main"}} {
 					_ = ioutil.WriteFile(trace, nil, 0o644)
-					res := e.run(d, "", 20*time.Second, append([]string{"-c", srv.URL + pth}, args...)...)
+					// every other configuration is addressed with a query string (which has a dot of its
+					// own): the format is a matter of the URL's path, not of what follows it
+					query := ""
+					if k%2 == 0 {
+						query = "?rev=42&name=a.b"
+					}
+					res := e.run(d, "", 20*time.Second, append([]string{"-c", srv.URL + pth + query}, args...)...)
 					atomic.AddInt64(&runs, 1)
 					tb, _ := ioutil.ReadFile(trace)
 					o[j] = fmt.Sprintf("exit=%d crashed=%v\n%s\n%s", res.Exit, res.Crashed() || res.TimedOut, normalise(strings.ReplaceAll(res.Stdout, "cfg."+f, "cfg.X"), d), string(tb))
